@@ -63,7 +63,21 @@ open QV QV.Writer QV.ServerSafety
   proved). Everything else `checkSession` does is discharged: the walk over the status strings with
   `absOk` and `justified` (`C12_failures_justified`), the getters, header, questions and records by
   item mode, OPT, TSIG, size. Open: the audit premise, and sessions with `clear_rrs` (the walk then
-  checks each segment against the message finished before the call). (d) is stated for limits of at
+  checks each segment against the message finished before the call).
+  State of the audit premise (`auditPointers d aF.itemModes.reverse aF.mode = .ok ()`), in four
+  layers. Proved: (1) every name write records only label starts of the name it leaves at the old
+  cursor (`PhysLab`, `NameSpec.ok`) and writes the name literally in `Disabled` mode; (2) the
+  layout invariant `CLay` carries, for all call sequences, that every recorded label start is the
+  first octet of a label of a name of the chains — a QNAME below `rr_start`, an owner or a name
+  inside RDATA above (`QLab`, `RLab`; `RdAt` lists the name positions of each RDATA) — and that a
+  name written in `Disabled` mode ends with its root label (`NameIs`); `finish` keeps this for the
+  OPT and TSIG records (`Labs` in `FinLayC`); (3) the decoder's name occurrences `d.names` are, in
+  order, the names at the name positions of the chains of the final buffer, each described as the
+  physical walk finds it there (`FinAudit` in `finish_refines`, `physical_inv`, `chunk_unique`).
+  Still to do: (4) the induction over `auditPointers.go` (a pointer's target is a recorded label
+  start below the name, hence a label of an earlier occurrence; no pointer in `Disabled` items
+  and in uncompressible RDATA), and with it `C12_full` without the premise for sessions without
+  `clear_rrs`. (d) is stated for limits of at
   most 65535 (RDLENGTH is a 16-bit field; the writer itself accepts larger buffers). The driver
   evaluates `checkSession` itself on 100 % of the generated sessions (model column and, on the
   implementation's octets, spec column of `waudit`). -/
